@@ -18,7 +18,10 @@ RULE = ('Hypothesis draws the structure of a room (2..6 base stations with arbit
         'sweep angles are synthesised independently. O1: one of the two IPPE solutions is the true relative pose. O2: the solver started '
         'at the truth stays at the truth (1 mm / 1 mrad) and reports success. O3: match -> estimate -> solve returns the truth in the frame '
         'of the first sample, unlinkable systems raise LhException, linkable ones never raise, matcher grouping equals an independent '
-        're-implementation. Non-trivial = >= 3 stations with partial visibility, exactly 2 stations, or non-contiguous ids.')
+        're-implementation. One room in seven keeps all poses inside a 0.5 m box (hovering). Sub "dropped-sample-rooms" replays stored rooms '
+        '(found offline by tools/find_dropped_rooms.py on the unchanged tree) in which the estimator discards error-free samples and a '
+        'station is first seen after the first discarded one. Non-trivial = >= 3 stations with partial visibility, exactly 2 stations, or '
+        'non-contiguous ids.')
 ASSUMPTIONS = ['measurements of one pose lie within 20 ms of the first one and consecutive poses are more than 20 ms apart from that first one',
                'a station is only "visible" when all four sensors are inside +-60/+-50 deg and it looks at the top side of the deck',
                'tolerances: 1 mm / 1 mrad as stated; IPPE containment 2 cm / 20 mrad (float32 projection input, 3 cm deck)']
@@ -104,7 +107,7 @@ def run_room(case):
     partial = any(len(g[1]) < len(ids) for g in usable)
     out.nontrivial = (len(ids) >= 3 and partial) or len(ids) == 2 or not contiguous
     out.feat('stations-%d' % len(ids), 'vis-' + case['visibility'], 'timing-' + case['timing'], 'contiguous-ids' if contiguous else 'gappy-ids',
-             'poses-%s' % ('3-9' if case['ncf'] < 10 else '10-40'))
+             'poses-%s' % ('3-9' if case['ncf'] < 10 else '10-40'), 'poses-in-a-small-box' if case.get('box') else 'poses-over-the-volume')
     desc = 'seed=%d ids=%r ncf=%d vis=%s timing=%s' % (case['seed'], ids, case['ncf'], case['visibility'], case['timing'])
     # ---- matcher vs independent grouping
     matched = LighthouseSampleMatcher.match(meas, min_nr_of_bs_in_match=2)
@@ -323,7 +326,7 @@ def room_case(draw):
     vis = draw(st.sampled_from(['full', 'full', 'random', 'random', 'chain', 'ring', 'split'])) if n >= 3 else draw(st.sampled_from(['full', 'full', 'random']))
     return {'seed': draw(st.integers(0, 2 ** 31 - 1)), 'ids': ids, 'ncf': ncf, 'visibility': vis, 'timing': draw(st.sampled_from(['sparse', 'sparse', 'dense', 'boundary'])),
             'bs_order': draw(st.sampled_from(['sorted', 'reverse'])), 'max_tilt': draw(st.sampled_from([10.0, 10.0, 3.0, 0.0])),
-            'yaw_mode': draw(st.sampled_from(['random', 'random', 'random', 'quarter']))}
+            'yaw_mode': draw(st.sampled_from(['random', 'random', 'random', 'quarter'])), 'box': draw(st.sampled_from([None] * 6 + [0.5]))}
 
 
 # ---------------------------------------------------------------- pose averaging (anchored mechanism: quaternion averaging)
@@ -373,8 +376,18 @@ def subchecks(tier):
     return [
         Sub('rooms', run_room, strategy=room_case(), examples={'quick': 160, 'thorough': 9600}),
         Sub('ippe-and-solver', run_ippe, strategy=room_case(), examples={'quick': 160, 'thorough': 6000}),
+        Sub('dropped-sample-rooms', run_room, cases=dropped_room_cases, distinct_by_construction=True),
         Sub('pose-averaging', run_average, strategy=average_case(), examples={'quick': 800, 'thorough': 40000}),
     ]
+
+
+def dropped_room_cases(tier):
+    """stored rooms (tools/find_dropped_rooms.py) in which the unchanged library discards error-free samples and a station is first seen later"""
+    import json
+    import os
+    path = os.path.join(os.path.dirname(os.path.dirname(os.path.abspath(__file__))), 'corpus', 'C09', 'dropped-sample-rooms.json')
+    for c in json.load(open(path)):
+        yield c
 
 
 def finalize(stats):
